@@ -213,7 +213,30 @@ fn open_pty() -> Option<(RawFd, File)> {
     }
 }
 
+/// Ordinary runs share this lock; `run_exclusive` takes it alone.
+static EXCLUSIVE: std::sync::RwLock<()> = std::sync::RwLock::new(());
+
 pub fn run(r: Run) -> ProcOut {
+    let _g = EXCLUSIVE.read().unwrap_or_else(|e| e.into_inner());
+    run_inner(r)
+}
+
+/// Runs one process while no other process of this harness is being spawned or
+/// is running. Used to confirm an observation that depends on "nobody else holds
+/// this pipe": a child spawned concurrently by another thread holds copies of
+/// every descriptor of this process (close-on-exec ones included) until its exec
+/// has closed them - and with vfork-style spawning the parent is resumed slightly
+/// BEFORE that point - so for a moment a pipe whose read end the harness has
+/// closed can still have a reader. Confirming under exclusion removes that
+/// harness-made race; a real defect repeats.
+pub fn run_exclusive(r: Run) -> ProcOut {
+    let _g = EXCLUSIVE.write().unwrap_or_else(|e| e.into_inner());
+    // let children that were just spawned finish their exec
+    std::thread::sleep(Duration::from_millis(100));
+    run_inner(r)
+}
+
+fn run_inner(r: Run) -> ProcOut {
     let mut cmd = Command::new(r.bin);
     cmd.args(&r.argv).current_dir(r.cwd).stderr(Stdio::piped());
     // keep argv[0] stable so that usage text is comparable
